@@ -5,6 +5,11 @@
 //     mode node : jbn_patch(root, struct jbl_patch[], n, pool)     (patch array decoded here, exact member names)
 //     mode jbl  : jbl_patch(jbl, struct jbl_patch[], n)            (binary form)
 //     mode json : jbl_patch_from_json(jbl, text of the patch)      (decoder + binary form)
+//   bpatch <jbl|json> <binn bytes hex> | <patch wire tokens>
+//     the same two binary entry points on a holder built over the given BYTES (jbl_from_buf_keep);
+//     answer: <rc> <binn bytes hex of the holder afterwards | scalar <wire>>
+//   bseq <jbl|json> <binn bytes hex> | <patch> | <patch> ...
+//     the patch documents applied to the same holder one after the other; answer: <rc>,<rc>,... <bytes afterwards>
 //   answer, tree modes:   <rc> <doc wire | NONE> kl=<0|1>
 //   answer, binary modes: <rc> <doc wire | NONE> same=<0|1>        (same: bytes of the document unchanged)
 #include "hx_jp.h"
@@ -36,6 +41,49 @@ static int decode(struct jbl_node *patch, struct jbl_patch **out, struct iwpool 
   return n;
 }
 
+// one binary entry point on a holder; 0 = the patch could not be handed over (harness-level refusal)
+static int byte_patch(const char *mode, struct jbl *jbl, struct jbl_node *patch, struct iwpool *pool, iwrc *rcp) {
+  if (!strcmp(mode, "jbl")) {
+    struct jbl_patch *p = 0;
+    int cnt = decode(patch, &p, pool);
+    if (cnt < 0) return 0;
+    *rcp = jbl_patch(jbl, p, cnt);
+  } else {
+    char *text = 0;
+    iwrc rc = jbn_as_json_alloc(patch, 0, &text);
+    if (rc) return 0;
+    *rcp = jbl_patch_from_json(jbl, text);
+    free(text);
+  }
+  return 1;
+}
+
+static void byte_ops(char **w, int n) {
+  int seq = !strcmp(w[0], "bseq");
+  const char *mode = w[1];
+  if (n < 5 || strcmp(w[3], "|") || (strcmp(mode, "jbl") && strcmp(mode, "json"))) { printf("bad-op\n"); return; }
+  iwrc rc = 0;
+  struct jbl *jbl = hxp_holder(w[2], &rc);
+  if (!jbl) { printf("from-buf-%s\n", hxp_rc(rc)); return; }
+  struct iwpool *pool = iwpool_create(4096);
+  int pos = 4, first = 1, bad = 0;
+  while (pos < n && !bad) {
+    int end = pos;
+    while (end < n && strcmp(w[end], "|")) end++;
+    int pp = pos;
+    struct jbl_node *patch = hxj_build(w, end, &pp, pool, 0);
+    if (!patch || pp != end || (!seq && end != n)) { bad = 1; break; }
+    if (!byte_patch(mode, jbl, patch, pool, &rc)) { bad = 2; break; }
+    printf("%s%s", first ? "" : ",", hxp_rc(rc));
+    first = 0;
+    pos = end + 1;
+  }
+  if (bad) printf("%s\n", bad == 1 ? "bad-op" : "bad-patch");
+  else { fputc(' ', stdout); hxp_dump_holder(jbl); fputc('\n', stdout); }
+  jbl_destroy(&jbl);
+  iwpool_destroy(pool);
+}
+
 int main(int argc, char **argv) {
   setvbuf(stdout, 0, _IOLBF, 0);
   hxp_watchdog_init();
@@ -44,6 +92,7 @@ int main(int argc, char **argv) {
   while (alarm(0), fgets(line, HX_MAXLINE, stdin)) {
     alarm(HXP_OP_SECONDS);
     int n = hx_words(line, w, 65536);
+    if (n >= 1 && (!strcmp(w[0], "bpatch") || !strcmp(w[0], "bseq"))) { byte_ops(w, n); continue; }
     int sep = hxp_sep(w, n);
     if (n < 5 || strcmp(w[0], "patch") || sep < 3) { printf("bad-op\n"); continue; }
     const char *mode = w[1];
